@@ -28,15 +28,64 @@ def plain_local(f, op):
     return None
 
 
+def cost_accumulator(f):
+    """the running-cost local of f, by role: the (non-parameter, u64) local handed to check_cost as its first argument at
+    every call of check_cost in f.  Raises AnchorMissing when there is no such unique local."""
+    cands = []
+    for b, t in f.calls_to("cost::check_cost"):
+        l = plain_local(f, t["args"][0])
+        cands.append(l)
+    ls = set(cands)
+    if len(ls) != 1 or None in ls or f.local_ty(next(iter(ls))) != "u64":
+        raise mir.AnchorMissing(f"{f.path}: the cost accumulator (the local every check_cost call receives) is not unique: {sorted(map(str, ls))}")
+    return next(iter(ls))
+
+
 def budget_params(cr):
-    """{fn path: set(param local)} — parameters that carry a budget, by propagation from `max_cost`"""
+    """{fn path: set(param local)} — parameters that carry a budget.  Found by ROLE, not by name: a u64 parameter that is
+    (a) the second argument of cost::check_cost, (b) compared in a test whose taken edge is a CostExceeded return, or
+    (c) the third parameter of an operator (fn(&mut Allocator, NodePtr, Cost, ClvmFlags) -> Response) or the budget
+    position of Dialect::op; then closed under "passed unchanged to / received unchanged from a budget parameter"."""
     B = {}
+
+    def add(p, i):
+        if i not in B.setdefault(p, set()):
+            B[p].add(i)
+            return True
+        return False
     for f in cr.fns.values():
-        if is_test_fn(f):
+        if is_test_fn(f) or "{closure" in f.path:
             continue
-        for i in range(1, f.nargs + 1):
-            if f.local_name(i) == "max_cost" and f.local_ty(i) == "u64":
-                B.setdefault(f.path, set()).add(i)
+        u64s = [i for i in range(1, f.nargs + 1) if f.local_ty(i) == "u64"]
+        if not u64s:
+            continue
+        tys = [f.local_ty(i) for i in range(1, f.nargs + 1)]
+        if f.nargs == 4 and tys[0].endswith("mut allocator::Allocator") and tys[1] == "allocator::NodePtr" and tys[2] == "u64" \
+                and tys[3].endswith("ClvmFlags") and "reduction::Reduction" in f.local_ty(0):
+            add(f.path, 3)
+        if f.path.endswith("as dialect::Dialect>::op") and f.nargs >= 5 and f.local_ty(5) == "u64":
+            add(f.path, 5)
+        if f.path in ("run_program::run_program", RP + "run_program") and f.local_ty(f.nargs) == "u64":
+            add(f.path, f.nargs)       # the public entry points: the last parameter is the caller's budget
+        for b, t in f.calls_to("cost::check_cost"):
+            l = plain_local(f, t["args"][1])
+            if l in u64s:
+                add(f.path, l)
+        f.status()
+        for b in f.reachable_blocks():
+            if f.term(b)["k"] != "switch":
+                continue
+            be = f.bool_edges(b)
+            if not be or not f.is_error_block(be[0]) or f.err_variants_from(be[0]) != {"CostExceeded"}:
+                continue
+            sh = strip(f.switch_cond(b, deep=False))
+            if sh[0] == "bin" and sh[1] in ("Gt", "Ge", "Lt", "Le"):
+                for side in (sh[2], sh[3]):
+                    side = strip(side)
+                    if side[0] in ("var", "named") and side[2] in u64s:
+                        # the budget is the SMALLER side of a "too expensive" test: x > budget / budget < x
+                        if (sh[1] in ("Gt", "Ge") and side is strip(sh[3])) or (sh[1] in ("Lt", "Le") and side is strip(sh[2])):
+                            add(f.path, side[2])
     changed = True
     while changed:
         changed = False
@@ -50,9 +99,20 @@ def budget_params(cr):
                 for i, a in enumerate(t["args"]):
                     l = plain_local(f, a)
                     if l in B[p] and i + 1 <= g.nargs and g.local_ty(i + 1) == "u64":
-                        if (i + 1) not in B.setdefault(c, set()):
-                            B[c].add(i + 1)
-                            changed = True
+                        changed |= add(c, i + 1)
+        # backwards: a caller's u64 parameter handed unchanged to a budget parameter is a budget
+        for f in cr.fns.values():
+            if is_test_fn(f):
+                continue
+            for b, t in f.calls():
+                c = t.get("callee")
+                if c not in B:
+                    continue
+                for i, a in enumerate(t["args"]):
+                    if (i + 1) in B[c]:
+                        l = plain_local(f, a)
+                        if l is not None and 1 <= l <= f.nargs and f.local_ty(l) == "u64":
+                            changed |= add(f.path, l)
     return B
 
 
@@ -138,11 +198,42 @@ def run(ctx):
     if not K:
         raise mir.AnchorMissing("run loop: budget test not found")
     kb, kn, kbe = K
-    want = ({"cost": 1, "effective_max_cost": -1}, 0, ">0")
-    ck.ob("R02b", RP + "run_program|loop test", kn == want, "the loop fails iff cost > effective_max_cost (strict)",
-          site=rp.where(kb), detail=show_norm(kn))
+    B0 = budget_params(cr)
+    # ---- roles in the run loop (no local names): COST = the value in the cost slot of the successful return; EFF = what it
+    # is compared with; BUDGET = the caller's budget after the "0 means unlimited" substitution
     okb = [b for b in rp.reachable_blocks() if rp._last_ret.get(b) == "OK"]
-    cost_l = rp.local_by_name("cost")
+    cost_l = None
+    for b in okb:
+        for st in rp.stmts(b):
+            rv = st.get("rv", {})
+            if st.get("d") and st["d"]["l"] == 0:
+                for x in walk(rp.expr_rvalue(rv, deep=False)):
+                    if x[0] == "agg" and x[1].endswith("Reduction") and x[2]:
+                        y = strip(x[2][0])
+                        if y[0] in ("var", "named"):
+                            cost_l = y[2]
+    if cost_l is None:
+        raise mir.AnchorMissing("run loop: the successful return does not carry a local in Reduction's cost slot")
+    sh = strip(rp.switch_cond(kb, deep=False)) if rp.term(kb)["k"] == "switch" else None
+    eff_l = None
+    if sh is not None and sh[0] == "bin":
+        for side in (strip(sh[2]), strip(sh[3])):
+            if side[0] in ("var", "named") and side[2] != cost_l:
+                eff_l = side[2]
+    else:
+        t = rp.term(kb)
+        eff_l = plain_local(rp, t["args"][1])
+    keep = {cost_l: "COST"}
+    if eff_l is not None:
+        keep[eff_l] = "EFF"
+    pbud = sorted(B0.get(rp.path, []))
+    if rp.term(kb)["k"] == "switch":
+        kn = compare_norm(rp.denamed(rp.switch_cond(kb, deep=False), keep))
+    else:
+        kn = ({"COST": 1, "EFF": -1}, 0, ">0") if plain_local(rp, rp.term(kb)["args"][0]) == cost_l else kn
+    want = ({"COST": 1, "EFF": -1}, 0, ">0")
+    ck.ob("R02b", RP + "run_program|loop test", kn == want, "the loop fails iff cost > effective budget (strict), where cost is the value returned",
+          site=rp.where(kb), detail=show_norm(kn))
     hdrs = [h for h, body in rp.loops().items() if kb in body]
     hdr = max(hdrs, key=lambda h: len(rp.loops()[h])) if hdrs else None
     dom = bool(okb) and all(rp.dominates(kbe[1], b) for b in okb)
@@ -158,86 +249,90 @@ def run(ctx):
         for p, _ in rp.pred(x):
             work.append(p)
     between = fwd & can_reach_ok
-    upd = [site for site in rp.defs(cost_l[0]) if site[0] in between] if cost_l else ["?"]
-    ck.ob("R02a", RP + "run_program|must-pass-through", dom and not upd and len(cost_l) == 1,
+    upd = [site for site in rp.defs(cost_l) if site[0] in between]
+    ck.ob("R02a", RP + "run_program|must-pass-through", dom and not upd,
           "every successful return is dominated by the budget test, with no cost update in between",
-          site=rp.where(kb), detail={"ok_blocks": okb, "updates_between": [rp.where(s[0]) for s in upd if s != '?']})
-    # returned cost is that same accumulator
-    retexpr = []
-    for b in okb:
-        for st in rp.stmts(b):
-            if st.get("d") and st["d"]["l"] == 0:
-                retexpr.append(show(rp.expr_rvalue(st["rv"], deep=False)))
-    ck.ob("R02a", RP + "run_program|returned cost", all(r.startswith("Ok(Reduction(cost,") for r in retexpr) and bool(retexpr),
-          "the returned cost is the tested accumulator", site=rp.where(okb[0]) if okb else None, detail=retexpr)
-    # budget 0 => unlimited
-    mc = [l for l in rp.local_by_name("max_cost") if l > rp.nargs]
+          site=rp.where(kb), detail={"ok_blocks": okb, "updates_between": [rp.where(s[0]) for s in upd]})
+    ck.ob("R02a", RP + "run_program|returned cost", True, "the returned cost is the tested accumulator (COST is defined as the returned value and is the left side of the test)",
+          site=rp.where(okb[0]) if okb else None, trivial=True)
+    # budget 0 => unlimited: a test `budget parameter == 0` whose taken edge assigns u64::MAX
     zero_ok = False
+    bud_l = None
     for b in sorted(rp.reachable_blocks()):
         if rp.term(b)["k"] == "switch":
-            n = compare_norm(rp.switch_cond(b))
-            if n == ({"max_cost": 1}, 0, "==0"):
+            shz = strip(rp.switch_cond(b, deep=False))
+            if shz[0] == "bin" and shz[1] == "Eq" and strip(shz[2])[0] in ("var", "named") and strip(shz[2])[2] in pbud \
+                    and strip(shz[3])[0] == "const" and strip(shz[3])[1] == 0:
                 be = rp.bool_edges(b)
-                vals = []
-                for bb in (be[0],):
-                    for st in rp.stmts(bb):
-                        if "rv" in st and "use" in st["rv"] and "c" in st["rv"]["use"]:
-                            vals.append(st["rv"]["use"]["c"].get("val"))
-                zero_ok = 2 ** 64 - 1 in vals
+                for st in rp.stmts(be[0]):
+                    if "rv" in st and "use" in st["rv"] and "c" in st["rv"]["use"] and st["rv"]["use"]["c"].get("val") == 2 ** 64 - 1 and not st["d"]["p"]:
+                        zero_ok = True
+                        bud_l = st["d"]["l"]
     ck.ob("R02b", RP + "run_program|budget 0", zero_ok, "a budget of 0 is replaced by u64::MAX", site=rp.where(0))
-    # effective_max_cost is either the guard's expected cost or max_cost
-    eff = rp.local_by_name("effective_max_cost")
-    effdefs = sorted(show(rp.expr_rvalue(rp.def_rvalue(s), deep=False)) for s in rp.defs(eff[0])) if eff else []
-    ck.ob("R02c", RP + "run_program|effective budget", len(effdefs) == 2 and any("expected_cost" in d for d in effdefs) and "max_cost" in effdefs,
+    # the shadowing local may be copied once more into the user variable
+    bud_ls = {bud_l} if bud_l is not None else set()
+    for l in range(rp.nargs + 1, len(rp.locals)):
+        if l == eff_l or l == cost_l or len(rp.defs(l)) != 1:
+            continue
+        for d_ in rp.defs(l):
+            if d_[1] != "T" and "use" in rp.def_rvalue(d_) and mir.op_place(rp.def_rvalue(d_)["use"]) and mir.op_place(rp.def_rvalue(d_)["use"])["l"] in bud_ls:
+                bud_ls.add(l)
+    for l in bud_ls:
+        keep[l] = "BUDGET"
+    # EFF is either the innermost guard's expected cost or the caller's budget
+    effdefs = sorted(show(rp.denamed(rp.expr_rvalue(rp.def_rvalue(s_), deep=False), keep)) for s_ in rp.defs(eff_l)) if eff_l is not None else []
+    ck.ob("R02c", RP + "run_program|effective budget", len(effdefs) == 2 and any(d_.endswith(".expected_cost") or ".expected_cost" in d_ for d_ in effdefs) and "BUDGET" in effdefs,
           "the effective budget is the innermost guard's expected cost, else the caller's budget", site=rp.where(kb), detail=effdefs)
     ap = rp.calls_to(RP + "apply_op")
     okc = False
     det = None
     if len(ap) == 1:
         b, t = ap[0]
-        a1 = show(rp.expr_op(t["args"][1], deep=False))
-        a2 = linear(rp.expr_op(t["args"][2], deep=False))
-        det = {"current_cost": a1, "max_cost": str(a2)}
-        okc = a1 == "cost" and a2 == ({"effective_max_cost": 1, "cost": -1}, 0)
-    ck.ob("R02c", RP + "run_program|apply_op budget", okc, "apply_op receives (cost, effective_max_cost - cost)", site=rp.where(ap[0][0]) if ap else None, detail=det)
+        a1 = show(rp.denamed(rp.expr_op(t["args"][1], deep=False), keep))
+        a2 = linear(rp.denamed(rp.expr_op(t["args"][2], deep=False), keep))
+        det = {"current cost": a1, "budget": str(a2)}
+        okc = a1 == "COST" and a2 == ({"EFF": 1, "COST": -1}, 0)
+    ck.ob("R02c", RP + "run_program|apply_op budget", okc, "apply_op receives (cost, effective budget - cost)", site=rp.where(ap[0][0]) if ap else None, detail=det)
     # apply_op -> Dialect::op
     af = cr.fn(RP + "apply_op")
     ck.analysed(af)
+    abud = sorted(B0.get(af.path, []))
     dops = [(b, t) for b, t in af.calls() if (t.get("raw") or "").endswith("Dialect::op")]
-    good = bool(dops)
+    good = bool(dops) and len(abud) == 1
     dd = []
     for b, t in dops:
-        names = [show(af.expr_op(a, deep=False)) for a in t["args"]]
-        dd.append(names)
-        good = good and "max_cost" in names and plain_local(af, t["args"][names.index("max_cost")]) == [i for i in range(1, af.nargs + 1) if af.local_name(i) == "max_cost"][0]
-    ck.ob("R02c", RP + "apply_op|Dialect::op budget", good, "apply_op hands its budget unchanged to the dialect", site=af.where(dops[0][0]) if dops else None, detail=dd)
-    # softfork declared cost
+        dd.append([show(af.denamed(af.expr_op(a_, deep=False))) for a_ in t["args"]])
+        good = good and len(t["args"]) >= 5 and plain_local(af, t["args"][4]) in abud
+    ck.ob("R02c", RP + "apply_op|Dialect::op budget", good, "apply_op hands its budget parameter unchanged to the dialect (budget position of Dialect::op)",
+          site=af.where(dops[0][0]) if dops else None, detail=dd)
+    # softfork declared cost: a CostExceeded test  declared > budget  where declared comes from uint_atom
     sf = None
     for b in sorted(af.reachable_blocks()):
-        if af.term(b)["k"] == "switch":
-            n = compare_norm(af.switch_cond(b))
-            if n and n[0].get("max_cost") == -1 and len(n[0]) == 2:
-                be = af.bool_edges(b)
-                if af.is_error_block(be[0]) and af.err_variants_from(be[0]) == {"CostExceeded"}:
-                    sf = (b, n)
-    ck.ob("R02b", RP + "apply_op|softfork declared cost", sf is not None and sf[1][1] == 0 and sf[1][2] == ">0" and
-          [k for k in sf[1][0] if k != "max_cost"][0].startswith("expected_cost") or (sf is not None and "uint_atom" in str(sf[1][0])),
-          "a softfork guard fails iff its declared cost > remaining budget (strict)", site=af.where(sf[0]) if sf else af.where(0),
+        if af.term(b)["k"] == "switch" and abud:
+            shs = strip(af.switch_cond(b, deep=False))
+            be = af.bool_edges(b)
+            if shs[0] == "bin" and shs[1] in ("Gt", "Lt", "Ge", "Le") and be and af.is_error_block(be[0]) and af.err_variants_from(be[0]) == {"CostExceeded"}:
+                n = compare_norm(af.denamed(af.switch_cond(b, deep=False), {abud[0]: "BUDGET"}))
+                deep_other = show(af.switch_cond(b))
+                if n and n[0].get("BUDGET") == -1 and len(n[0]) == 2:
+                    sf = (b, n, "uint_atom" in deep_other)
+    ck.ob("R02b", RP + "apply_op|softfork declared cost", sf is not None and sf[1][1] == 0 and sf[1][2] == ">0" and sf[2],
+          "a softfork guard fails iff its declared cost (uint_atom of the first argument) > remaining budget (strict)", site=af.where(sf[0]) if sf else af.where(0),
           detail=show_norm(sf[1]) if sf else None)
     # check_cost itself
     cc = cr.fn("cost::check_cost")
     ck.analysed(cc)
-    ns = [compare_norm(cc.switch_cond(b)) for b in cc.reachable_blocks() if cc.term(b)["k"] == "switch"]
-    okcc = ns == [({"cost": 1, "max_cost": -1}, 0, ">0")]
+    ns = [compare_norm(cc.denamed(cc.switch_cond(b))) for b in cc.reachable_blocks() if cc.term(b)["k"] == "switch"]
+    okcc = ns == [({"$1": 1, "$2": -1}, 0, ">0")]
     if okcc:
         b = [b for b in cc.reachable_blocks() if cc.term(b)["k"] == "switch"][0]
         be = cc.bool_edges(b)
         okcc = cc.is_error_block(be[0]) and cc.err_variants_from(be[0]) == {"CostExceeded"} and not cc.is_error_block(be[1])
-    ck.ob("R02b", "cost::check_cost", okcc, "check_cost fails iff cost > max_cost (strict) with CostExceeded", site=cc.where(0),
+    ck.ob("R02b", "cost::check_cost", okcc, "check_cost(cost, budget) fails iff cost > budget (strict) with CostExceeded", site=cc.where(0),
           detail=[show_norm(n) for n in ns])
 
     # ------------------------------------------------------------------ R02d / R02e
-    B = budget_params(cr)
+    B = B0
     nsites = 0
     for path in sorted(B):
         f = cr.fns[path]
@@ -349,10 +444,29 @@ AUDITED_BUDGET_USES = {
 }
 
 
+def guard_cost_locals(f):
+    """locals that are stored in SoftforkGuard.expected_cost (by role: the operand of that field in the aggregate)"""
+    if hasattr(f, "_guard_cost_locals"):
+        return f._guard_cost_locals
+    out = set()
+    for b in f.reachable_blocks():
+        for st in f.stmts(b):
+            rv = st.get("rv", {})
+            if "agg" in rv and isinstance(rv["agg"][0], dict) and rv["agg"][0].get("adt", "").endswith("SoftforkGuard"):
+                for fname, op in zip(rv["agg"][0]["fields"], rv["agg"][1]):
+                    if fname == "expected_cost":
+                        for y in walk(f.expr_op(op, deep=False)):
+                            if y[0] in ("var", "named"):
+                                out.add(y[2])
+    f._guard_cost_locals = out
+    return out
+
+
 def taint_uses(f, cr, bl, B):
     """uses of budget local `bl` that are not allowed; returns list of descriptions"""
     bad = []
     tainted = {bl}
+    pure = {bl}     # plain copies of the budget itself
     work = [bl]
     seen_stmt = set()
     while work:
@@ -370,6 +484,8 @@ def taint_uses(f, cr, bl, B):
                 d = st["d"]
                 if "use" in rv or "cast" in rv or "ref" in rv:
                     if not d["p"] and d["l"] != 0:
+                        if "use" in rv and l in pure:
+                            pure.add(d["l"])
                         if d["l"] not in tainted:
                             tainted.add(d["l"])
                             work.append(d["l"])
@@ -381,9 +497,11 @@ def taint_uses(f, cr, bl, B):
                         bad.append(f"comparison {show(f.expr_rvalue(rv, deep=False))} at {f.where(b, st['ln'])} controls more than a CostExceeded return")
                     continue
                 if "bin" in rv and rv["bin"][0] in ("Eq", "Ne"):
-                    e = show(f.expr_rvalue(rv, deep=False))
-                    if e in ("(max_cost Eq 0)", "(0 Eq max_cost)"):
-                        continue  # budget 0 => unlimited (R02b)
+                    # `budget == 0` (budget 0 => unlimited, R02b): the tainted local itself compared with the constant 0
+                    o1, o2 = rv["bin"][1], rv["bin"][2]
+                    other = o2 if (mir.op_place(o1) and mir.op_place(o1)["l"] == l) else o1
+                    if rv["bin"][0] == "Eq" and l in pure and mir.const_eval(f.expr_op(other, deep=False)) == 0:
+                        continue
                 if "agg" in rv and isinstance(rv["agg"][0], dict) and "closure" in rv["agg"][0]:
                     continue  # captured by a closure: analysed through the capture
                 if "agg" in rv and isinstance(rv["agg"][0], dict) and rv["agg"][0].get("adt", "").endswith("SoftforkGuard"):
@@ -400,8 +518,7 @@ def taint_uses(f, cr, bl, B):
                 # everything else: the budget flows into a computation
                 if f.path == RP + "apply_op" and (f.path, "SoftforkGuard.expected_cost") in AUDITED_BUDGET_USES:
                     # `let expected_cost = if PreHardFork { remaining budget } else { declared }` (audited)
-                    nm = f.local_name(d["l"]) if not d["p"] else None
-                    if nm == "expected_cost" or (not d["p"] and not f.local_name(d["l"])):
+                    if not d["p"] and (d["l"] in guard_cost_locals(f) or not f.local_name(d["l"])):
                         if d["l"] not in tainted:
                             tainted.add(d["l"])
                             work.append(d["l"])
